@@ -138,7 +138,7 @@ def run(tier, seed, scale=1.0):
     res.merge(rn)
 
     # ---- total: every decoding entry point on generated / mutated / corpus inputs
-    per = int((30000 if quick else 1600000) * scale)
+    per = int((30000 if quick else 1000000) * scale)
     sp = private_spec("legacy", "total", seed, opts={"corpus": CORPUS})
     res.merge(vdriver.explore(sp, per, chunk=max(50, min(400, per // 128)), chunk_timeout=900,
                               stop_after_violations=2000))
